@@ -226,6 +226,7 @@ def meta(tier):
     q = tier == "quick"
     return dict(bounds=dict(tree_depth=2 if q else 3, operators_per_tree=2 if q else "2 over all spellings with 2-character names; 3 (every third combination) over one or two operators per precedence level, depth <= 3",
                             binary_operators=BIN_OPS, unary_operators=UN_OPS, operand_kinds=LEAF_KINDS,
+                            repeated_literals="trees of 2 (thorough 3) binary operators over 12 representative operators with every operand an exponent literal, the first different from the equal others",
                             symbolic="operand names, literal digits, exponent letter and sign, logical-literal case, string body, case of dotted operators"),
                 assumptions=["names differ from keywords/intrinsics", "expressions are rendered with single blanks or none around binary operators (both)"],
                 budget_s=300 if q else 1500, unit_budget_s=60 if q else 240, witness_every=10)
